@@ -143,6 +143,7 @@ class Ctx:
         self.case = None
         self.open_call = None
         self.seconds = collections.Counter()
+        self.distincts = collections.defaultdict(set)
         self.t0 = time.time()
 
     # ---- boundary recorder -----------------------------------------------------------------
@@ -185,6 +186,10 @@ class Ctx:
         """Register a distinct non-trivial case (by canonical hash)."""
         self.nontrivial.add(h64(obj))
 
+    def distinct(self, name, obj):
+        """Count distinct observations of a named kind (e.g. index->worker partitions, adjacent call pairs)."""
+        self.distincts[name].add(h64(obj))
+
     def sample(self, label, obj):
         if label not in self.samples:
             self.samples[label] = jsonable(obj)
@@ -213,6 +218,7 @@ class Ctx:
             "returned": self.returned, "raised": self.raised,
             "violations": self.violations, "nontrivial": sorted(self.nontrivial),
             "samples": self.samples, "evaluations": self.evaluations, "seconds": dict(self.seconds),
+            "distincts": {k: sorted(v) for k, v in self.distincts.items()},
             "wall_s": time.time() - self.t0,
         }
 
